@@ -114,7 +114,9 @@ func (w *world) violate(short, msg string) {
 		}
 		return
 	}
-	if c19Rules[short] {
+	if c19Rules[short] || (short == "call-never-returned" && w.prop == "C19") {
+		// In a C19 run a request (retransmissions included) that never gets
+		// its reply is C19's concern.
 		w.k.Violate("C19/"+short, msg)
 	} else {
 		w.k.Violate("C18/"+short, msg)
